@@ -469,6 +469,7 @@ type Clause struct {
 	Props []string
 	Loop  int    // loop ordinal (1-based) for invariant/decreases
 	Site  string // callee key + #k for atcall
+	Required bool // atcall: the call must exist (its disappearance fails the clause instead of making it vacuous)
 	Src   string
 	E     Expr
 	File  string
@@ -487,6 +488,7 @@ type FuncContract struct {
 	Modifies   []ModLoc
 	HasMod     bool
 	MayPanic   bool
+	NoSafety   bool // run-time safety obligations (index, slice, nil map, type assertion, division) are not generated
 	Inline     bool
 	Trusted    bool // contract assumed, body not verified (dependencies, interfaces)
 	Pure       bool // modifies nothing
@@ -552,7 +554,7 @@ func NewSpecSet() *SpecSet {
 
 var clauseKeywords = map[string]bool{"spec": true, "axiom": true, "ghost": true, "func": true, "requires": true, "ensures": true,
 	"modifies": true, "loop": true, "at": true, "maypanic": true, "inline": true, "trusted": true, "pure": true, "check": true,
-	"let": true, "chanmode": true, "chaninv": true, "defines": true, "maintains": true, "thorough": true, "secret": true, "flows": true, "asset": true, "noverify": true, "ghostparam": true}
+	"let": true, "chanmode": true, "chaninv": true, "defines": true, "maintains": true, "thorough": true, "secret": true, "flows": true, "asset": true, "nosafety": true, "noverify": true, "ghostparam": true}
 
 // ReadSpecFile reads //@ lines. pkgPrefix is prepended to `func` keys that are
 // not already qualified (contract files inside a package use short keys).
@@ -717,6 +719,8 @@ func (ss *SpecSet) ReadSpecFile(path, pkgPrefix string) error {
 			switch kw {
 			case "maypanic":
 				cur.MayPanic = true
+			case "nosafety":
+				cur.NoSafety = true
 			case "inline":
 				cur.Inline = true
 			case "trusted":
@@ -890,8 +894,9 @@ func (ss *SpecSet) ReadSpecFile(path, pkgPrefix string) error {
 						continue
 					}
 					cur.Clauses = append(cur.Clauses, &Clause{Kind: "atreturnset", Site: f[2], E: e, Src: body, File: path, Line: rc.line})
-				} else if len(f) >= 4 && f[0] == "call" && (f[2] == "assert") {
-					c := &Clause{Kind: "atcall", Site: f[1], File: path, Line: rc.line}
+				} else if len(f) >= 4 && (f[0] == "call" || f[0] == "call!") && (f[2] == "assert") {
+					// `at call! X assert E`: the call itself is part of the property (it has to exist and be reachable)
+					c := &Clause{Kind: "atcall", Site: f[1], File: path, Line: rc.line, Required: f[0] == "call!"}
 					body := strings.TrimSpace(strings.SplitN(rest, " assert ", 2)[1])
 					body = parseTags(body, c)
 					e, err := ParseExpr(body)
